@@ -136,7 +136,8 @@ func C08dirs(p *load.Program, run *report.Run) {
 	// the cache lookup: v, ok := <map[string]*ast.Package>[key]
 	var keyObj types.Object
 	var hit *ast.IfStmt
-	for i, st := range fd.Body.List {
+	body := effectiveQ(info, fd.Body.List)
+	for i, st := range body {
 		as, ok := st.(*ast.AssignStmt)
 		if !ok || len(as.Rhs) != 1 {
 			continue
@@ -151,8 +152,8 @@ func C08dirs(p *load.Program, run *report.Run) {
 		if id, ok := ast.Unparen(ix.Index).(*ast.Ident); ok {
 			keyObj = info.ObjectOf(id)
 		}
-		if i+1 < len(fd.Body.List) {
-			hit, _ = fd.Body.List[i+1].(*ast.IfStmt)
+		if i+1 < len(body) {
+			hit, _ = body[i+1].(*ast.IfStmt)
 		}
 		break
 	}
